@@ -11,12 +11,94 @@ from lib import vf
 RETRY_Q = [40, 300]     # settle periods (ms) for re-running scripts whose first observation was not a member
 
 
+class HarnessCrash(RuntimeError):
+    def __init__(self, rc, log, progress=None):
+        RuntimeError.__init__(self, "harness c11 failed rc=%s: %s" % (rc, log[-3000:]))
+        self.rc, self.log, self.progress = rc, log, progress
+
+
+def _panic_head(log):
+    """the panic message and the first goroutine of a Go crash log"""
+    i = log.find("panic: ")
+    if i < 0:
+        i = log.find("fatal error: ")
+    if i < 0:
+        return log[-1500:]
+    return "\n".join(log[i:].split("\n\n")[:2])[:2500]
+
+
+def _attribute_crash(ctx, hc):
+    """The harness process died (an unrecovered panic in a goroutine of the transport takes the whole server
+    down - e.g. gorilla's 'concurrent write to websocket connection').  Find a script that does it: the scripts
+    in flight at the crash are re-run on their own, many times, in separate processes."""
+    head = _panic_head(hc.log)
+    rep = {"kind": "crash", "what": "the process serving the websocket connections died while these conversations ran (unrecovered panic in a transport goroutine)",
+           "panic": head, "shape": {"spec": "violates:server-process-crashed", "panic": head.split("\n")[0][:120]},
+           "replay": "/verif/.cache/h_c11 -tier %s -seed %s" % (ctx.tier, ctx.seed)}
+    try:
+        bin_ = os.path.join(vf.CACHE, "h_c11")
+        rc, so, _ = vf.sh([bin_, "-list", "-tier", ctx.tier, "-seed", str(ctx.seed)], cwd=vf.GO, env=vf.go_env(), timeout=300)
+        scripts = [l for l in so.split("\n") if l]
+        begun, ended = [], set()
+        for l in open(hc.progress).read().split("\n"):
+            t = l.split(" ")
+            if len(t) == 2 and t[1].isdigit():
+                (begun.append(int(t[1])) if t[0] == "B" else ended.add(int(t[1])))
+        cand = [scripts[i] for i in begun if i not in ended and i < len(scripts)]
+        cand = sorted(set(cand), key=len)[:32]
+        rep["in_flight"] = cand
+
+        def once(sc):
+            r, o, e = vf.sh([bin_, "-stdin", "-q", "5", "-par", "4", "-leakcheck=false"], cwd=vf.GO, env=vf.go_env(),
+                            inp="\n".join([sc] * 160) + "\n", timeout=600)
+            return sc, r, e
+        from concurrent.futures import ThreadPoolExecutor
+        with ThreadPoolExecutor(max_workers=8) as ex:
+            res = list(ex.map(once, cand))
+        hits = [(sc, e) for sc, r, e in res if r != 0 and ("panic: " in e or "fatal error: " in e)]
+        same = [h for h in hits if _panic_head(h[1]).split("\n")[0] == head.split("\n")[0]]
+        if same or hits:
+            sc, e = (same or hits)[0]
+            rep.update({"script": sc, "panic": _panic_head(e), "reproduced": "the script alone, repeated 160 times in a fresh process (4 at a time), crashes the process again",
+                        "replay": "yes '%s' | head -160 | /verif/.cache/h_c11 -stdin -q 5 -par 4" % sc})
+    except Exception as x:      # attribution is best effort; the crash itself is reported regardless
+        rep["attribution_error"] = repr(x)
+    return rep
+
+
+def _attribute_leak(ctx):
+    """goroutines of the transport were left after every session had been wound down: bisect the generated
+    scripts (each half in a fresh process) down to one conversation that leaves some behind on its own."""
+    bin_ = os.path.join(vf.CACHE, "h_c11")
+    rc, so, _ = vf.sh([bin_, "-list", "-tier", ctx.tier, "-seed", str(ctx.seed)], cwd=vf.GO, env=vf.go_env(), timeout=300)
+    scripts = [l for l in so.split("\n") if l]
+    for _ in range(20):
+        if len(scripts) <= 1:
+            break
+        half = scripts[:len(scripts) // 2]
+        _, lk = _run_harness(ctx, half)
+        scripts = half if lk else scripts[len(scripts) // 2:]
+    if len(scripts) == 1:
+        rows, lk = _run_harness(ctx, scripts)
+        if lk:
+            return scripts[0], rows[0], lk
+    return None
+
+
 def _run_harness(ctx, scripts=None, q=5, race=False, extra=None):
     args = ["-tier", ctx.tier, "-seed", ctx.seed, "-q", q]
     if extra:
         args += extra
     if scripts is None:
-        rc, so, se = ctx.harness("c11", args, race=race, timeout=2400)
+        prog = os.path.join(vf.CACHE, "c11_progress_%s.txt" % os.getpid())
+        rc, so, se = ctx.harness("c11", args + ["-progress", prog], race=race, timeout=2400)
+        if rc != 0:
+            raise HarnessCrash(rc, se or so, prog)
+        try:
+            os.remove(prog)
+        except OSError:
+            pass
+        ctx.c11_leak_dump = "\n".join(l for l in (se or "").split("\n\n") if l.startswith("LEAKED "))[:6000]
     else:
         # re-run of selected scripts: feed them on stdin
         bin_ = os.path.join(vf.CACHE, "h_c11" + ("_race" if race else ""))
@@ -148,7 +230,17 @@ def run(ctx):
     corpus = []
     for f in sorted(glob.glob(os.path.join(vf.VERIF, "corpus", "C11", "*.json"))):
         corpus.append(json.load(open(f))["script"])
-    rows, leak = _run_harness(ctx)
+    try:
+        rows, leak = _run_harness(ctx)
+    except HarnessCrash as hc:
+        rep_ = _attribute_crash(ctx, hc)
+        ctx.violation(rep_, no_failing_input="script" not in rep_)
+        ctx.cov.update({"evaluations": 0, "harness_crashed": True})
+        try:
+            os.remove(hc.progress)
+        except OSError:
+            pass
+        return
     if corpus:
         rows_c, _ = _run_harness(ctx, corpus, q=10, extra=["-leakcheck=false"])
         rows = rows_c + rows
@@ -216,6 +308,8 @@ def run(ctx):
             r_min, v_min = _shrink(ctx, _script_of(r), spec)
         except Exception:
             r_min, v_min = r, v
+        if not v_min.startswith("nonmember"):
+            r_min, v_min = r, v     # the shrunk script did not reproduce in its confirmation run: report the original
         failing = not v_min.endswith("spec=ok")
         parts = r_min.split("\t")
         rep = {
@@ -231,9 +325,18 @@ def run(ctx):
         ctx.violation({"kind": "spec-on-member", "script": _script_of(r), "observed": r.split("\t")[1:], "driver": v,
                        "shape": {"spec": _spec(v)}, "replay": _script_of(r)})
     if leak:
-        ctx.violation({"kind": "liveness-observation", "what": "transport goroutines still alive after every session was wound down",
-                       "frames_in_dump": leak, "shape": {"leak": True},
-                       "replay": "/verif/.cache/h_c11 -tier %s -seed %s | tail -1" % (ctx.tier, ctx.seed)})
+        culprit = None
+        try:
+            culprit = _attribute_leak(ctx)
+        except Exception:
+            pass
+        extra_ = {}
+        if culprit:
+            extra_ = {"script": culprit[0], "observed": culprit[1].split("\t")[1:], "frames_in_dump_for_this_script_alone": culprit[2]}
+        ctx.violation({"kind": "liveness-observation", **extra_, "what": "transport goroutines still alive after every session was wound down",
+                       "frames_in_dump": leak, "goroutines": getattr(ctx, "c11_leak_dump", ""), "shape": {"leak": True},
+                       "replay": ("printf '%s\\n' | /verif/.cache/h_c11 -stdin | tail -1" % culprit[0]) if culprit else
+                                 "/verif/.cache/h_c11 -tier %s -seed %s | tail -1" % (ctx.tier, ctx.seed)})
 
     if ctx.tier == "thorough":
         # data races / concurrent socket writes: observed only
